@@ -355,7 +355,18 @@ def u_error_change(root):
     mk(eng, "FitBase", "data", "getter", result=lambda vw: VOpaque("data"))
     mk(eng, "CostFunction", "is_data_compatible", result=lambda vw: VTuple([VBool(compat), VStr("reason")]))
 
+    new_has_errors = z3.Bool("new_container_declares_uncertainties")
+    mk(eng, "DataContainerBase", "has_errors", "getter", result=lambda vw: VBool(new_has_errors))
+
+    def oec(vw):          # _on_error_change as proved above: the implicit chi2 is replaced; here only the call is recorded
+        vw.post.ghost["oec_calls"] = vw.post.ghost.get("oec_calls", 0) + 1
+        vw.eng.write_field(vw.post, vw.self, "_implicit_no_errors", VBool(z3.BoolVal(False)))
+        return VNone()
+    mk(eng, "FitBase", "_on_error_change", result=oec)
+    implicit0 = z3.Bool("implicit_no_errors_before")
+
     def init2(e, st, me_):
+        st.assume(e.read_field(st, me_, "_implicit_no_errors").e == implicit0)
         e.write_field(st, me_, "_fitter", VExternal("fitter", {}))
         st.assume(z3.And(dc != NULL, pm != NULL, dc != pm, e.read_field(st, me_, "_cost_function").e != NULL))
         e.write_field(st, VRef(pm, "DataContainerBase"), "_on_error_change_callback", VNone())
@@ -366,7 +377,10 @@ def u_error_change(root):
             return [("raises only for data the cost function cannot handle", z3.Not(compat))]
         cb = lambda r: vw.eng.read_field(vw.post, VRef(r, "DataContainerBase"), "_on_error_change_callback")
         wired = lambda r: z3.BoolVal(isinstance(cb(r), VBound) and cb(r).name == "_on_error_change" and z3.eq(cb(r).recv.e, vw.self.e))
-        return [("the data container reports uncertainty changes to the fit", wired(dc)),
+        n_oec = vw.post.ghost.get("oec_calls", 0)
+        return [("a fit still on the implicit no-errors chi2 that is given a container declaring uncertainties switches to the covariance chi2 (through _on_error_change, proved above): declared sources are not ignored",
+                 z3.Implies(z3.And(implicit0, new_has_errors), z3.BoolVal(n_oec >= 1))),
+                ("the data container reports uncertainty changes to the fit", wired(dc)),
                 ("the parametric model ALSO reports uncertainty changes to the fit (a model-referenced source may be the first or only one)", wired(pm))]
     c = Contract("IndexedFit", "data", "setter")
     c.ensures.append(post2)
